@@ -1,4 +1,4 @@
-"""bin/check <property> [--tier quick|thorough] [--seed N] | replay <file>"""
+"""bin/check <property> [--tier quick|thorough] [--seed N] | replay <file> | revalidate <file>"""
 import argparse
 import hashlib
 import json
@@ -210,6 +210,17 @@ def one(prop, tagsub, tier='quick', seed=1):
 def main(argv):
     if argv and argv[0] == 'replay':
         return replay(argv[1])
+    if argv and argv[0] == 'revalidate':
+        # the RECORDED trace of a violation file against the current specification (no re-run of the code)
+        rec = json.load(open(argv[1]))
+        work = os.path.join(core.OUT, 'reval_%d' % os.getpid())
+        os.makedirs(work, exist_ok=True)
+        tp = os.path.join(work, 't.valid.ndjson')
+        open(tp, 'w').write('\n'.join(rec['trace']) + '\n')
+        rej, states = core.validate_file(props.PROPS[rec['property']].get('trace_spec', 'GoatTrace.tla'), tp, work)
+        shutil.rmtree(work, ignore_errors=True)
+        print('revalidate: rejected at lines %s' % rej if rej else 'revalidate: recorded trace accepted (%d states)' % states)
+        return 1 if rej else 0
     if argv and argv[0] == 'one':
         return one(argv[1], argv[2], os.environ.get('VERIF_TIER', 'quick'), int(os.environ.get('VERIF_SEED', '1')))
     ap = argparse.ArgumentParser()
